@@ -94,7 +94,10 @@ def boundary_cases(ctx, n_elems):
         dn = ds = 0
         factor = 1
         k = rng.random()
-        if k < 0.25:
+        if k < 0.1 and scale == 0:
+            y = 128 + rng.choice([54, 55, 56, 60, 63, 64]) - nbits      # wider than a double's mantissa
+            ops_open.append(201000 + y); ops_close.append(201000); dn += y - 128
+        elif k < 0.25:
             y = rng.choice([129, 130, 126, 125, 136])
             ops_open.append(201000 + y); ops_close.append(201000); dn += y - 128
         elif k < 0.45:
@@ -110,7 +113,8 @@ def boundary_cases(ctx, n_elems):
         if not (1 <= w <= 64):
             continue
         ids = ops_open + [e] + ops_close[::-1]
-        raws = {-1, 0, 1, 2 ** w - 2, 2 ** w - 1, 2 ** w, rng.randrange(0, 2 ** w), 2 ** (w - 1)}
+        raws = {-1, 0, 1, 2 ** w - 2, 2 ** w - 1, 2 ** w, rng.randrange(0, 2 ** w), 2 ** (w - 1),
+                rng.randrange(0, 2 ** w) | 1, 2 ** (w - 1) + 1}
         for raw in raws:
             q = Fraction(raw + r) / Fraction(10) ** s if s >= 0 else Fraction(raw + r) * Fraction(10) ** (-s)
             cands = []
